@@ -36,6 +36,8 @@ def _scalar_value(kind, n, ival):
         return (ival, None)      # text = str(ival), compared numerically
     if kind == 'float':
         return ('%d.5' % n, '%d.5' % n)
+    if n % 2:
+        return ('na me "q%d" \\z' % n, 'na me "q%d" \\z' % n)      # needs the quoted wire form, with escapes
     return ('name%d' % n, 'name%d' % n)
 
 
